@@ -234,7 +234,15 @@ func (r *runner) kill(name, how string) {
 	case how == "kill-partial" && point == "append.before" && line != "":
 		f, err := os.OpenFile(path, os.O_APPEND|os.O_WRONLY, 0o644)
 		if err == nil {
-			_, _ = f.WriteString(line[:len(line)/2])
+			cut := len(line) / 2
+			// when the line holds multi-byte characters, die inside one of them
+			for i := 0; i < len(line); i++ {
+				if line[i] >= 0x80 && i+1 < len(line) && line[i+1] >= 0x80 && line[i+1] < 0xc0 {
+					cut = i + 1
+					break
+				}
+			}
+			_, _ = f.WriteString(line[:cut])
 			f.Close()
 		}
 		r.torn = "partial"
